@@ -219,6 +219,7 @@ type Dominated struct {
 	Spec   *FlowSpec
 	Sink   SinkPred
 	Need   []Fact
+	AnyOf  [][]Fact // alternatively: at least one of these fact sets must hold entirely
 	Unless []Fact // an exempting fact (frozen exception) — must carry a reason
 	Reason string // reason for Unless
 	Min    int    // minimum number of sinks expected in Fn
@@ -256,6 +257,26 @@ func (d Dominated) Check(r *Run) {
 			if st.Has(u) {
 				exempt = true
 				r.Exception(label, "exempt by "+string(u)+": "+d.Reason)
+			}
+		}
+		if len(d.AnyOf) > 0 {
+			c := label + " justified by one of the alternatives"
+			okAlt := exempt
+			for _, alt := range d.AnyOf {
+				all := true
+				for _, f := range alt {
+					if !st.Has(f) {
+						all = false
+					}
+				}
+				if all {
+					okAlt = true
+				}
+			}
+			if okAlt {
+				r.OK(c, r.W.Pos(n.Ast.Pos()), "one alternative fact set holds on every path reaching the sink")
+			} else {
+				r.Fail(c, r.W.Pos(n.Ast.Pos()), fmt.Sprintf("`%s` in %s is reachable without any of the justifying fact sets %v; facts at sink: %v", ExprStr(n.Ast), f.Name, d.AnyOf, st.FactList()))
 			}
 		}
 		for _, need := range d.Need {
@@ -751,6 +772,65 @@ type RejectWhen struct {
 	BoolAtom  ExprPred
 	RejectVal bool
 	ErrIdx    int // result index of the error/bool (default last)
+	// RejectIsTrue: for predicates like isExpired() the rejecting return is `true`.
+	RejectIsTrue bool
+}
+
+// ReturnsRel requires that Fn has a live return whose result #Idx is exactly the
+// comparison `L rel R` (any orientation; negation normalised).
+type ReturnsRel struct {
+	Fn   string
+	Name string
+	L, R ExprPred
+	Rel  token.Token
+	Idx  int
+}
+
+func (rr ReturnsRel) Check(r *Run) {
+	f := r.Fn(rr.Fn)
+	if f == nil {
+		return
+	}
+	c := f.Ctx()
+	label := fmt.Sprintf("%s returns %s", f.Name, rr.Name)
+	var near []string
+	for _, n := range f.Graph().Returns() {
+		rs, ok := n.Ast.(*ast.ReturnStmt)
+		if !ok || len(rs.Results) == 0 {
+			continue
+		}
+		idx := rr.Idx
+		if idx < 0 || idx >= len(rs.Results) {
+			idx = len(rs.Results) - 1
+		}
+		e := ast.Unparen(rs.Results[idx])
+		neg := false
+		for {
+			if u, ok := e.(*ast.UnaryExpr); ok && u.Op == token.NOT {
+				e = ast.Unparen(u.X)
+				neg = !neg
+				continue
+			}
+			break
+		}
+		op, ok := CmpAtom(c, e, rr.L, rr.R)
+		if !ok {
+			continue
+		}
+		if neg {
+			op = negRel[op]
+		}
+		if op == rr.Rel {
+			r.OK(label, r.W.Pos(rs.Pos()), "return of the comparison with the required relation "+rr.Rel.String())
+			return
+		}
+		near = append(near, fmt.Sprintf("%s: `%s` has relation %s", r.W.Pos(rs.Pos()), ExprStr(rs), op))
+	}
+	why := "no return of a comparison between the required operands"
+	if len(near) > 0 {
+		why = "required relation " + rr.Rel.String() + " but found " + strings.Join(near, "; ")
+	}
+	r.Fail(label, r.W.Pos(f.Node().Pos()), why)
 }
 
 func (rw RejectWhen) Check(r *Run) {
@@ -856,6 +936,8 @@ func (rw RejectWhen) Check(r *Run) {
 						// returned through a variable assigned the sentinel on this path
 						rej = returnsVarAssignedSentinel(fl, m, sent, reach)
 					}
+				} else if rw.RejectIsTrue {
+					rej = ClassifyReturn(fl, m, errIdx) == True
 				} else {
 					rej = ClassifyReturn(fl, m, errIdx) == False
 				}
